@@ -177,7 +177,7 @@ def build_inputs(case, wd, hkeys=None):
                  "feats": [float(r["id"])] + [float(v) for v in r["f"]]} for r in fl["rows"]]
         key = KEYS[case.get("keyw", 2)]
         df = mk.build_table(rows, label_enc=case.get("label_enc", "1/-1"), nfeat=nfeat, key_cols=key,
-                            share2=bool(case.get("share2")) and len(key) >= 3, int_feats=bool(case.get("int_feats")))
+                            share2=bool(case.get("share2")) and len(key) >= 3, int_feats=(case.get("int_feats") if case.get("int_feats") == "big" else bool(case.get("int_feats"))))
         if "ExpMass" not in key:
             df = df.drop(columns=["ExpMass"])
         if hkeys is not None:
